@@ -171,6 +171,17 @@ class Exec(ExprMixin, StmtMixin, CallMixin, ContractMixin):
         for cname, when, lab, _ in ci.raises:
             if when is not None:
                 self.check(st, z3.Not(when), "raises", "must-raise:%s" % lab)
+        if decl.opts.get("functional"):
+            sp = dsl.REG.specs[decl.opts["functional"]]
+            saved = (st.ghost, st.pure)
+            st.ghost, st.pure = True, True
+            st.frames.append(dict(ci.env))
+            try:
+                expect = self.apply_spec(sp, [ci.env[n] for n in sp.params], st, None)
+            finally:
+                st.frames.pop()
+                st.ghost, st.pure = saved
+            self.check(st, veq(result, expect), "post", "functional:result-is-%s-of-the-arguments" % sp.qualname)
         for lab, enode in ci.ensures:
             c = self.eval_in_contract(ci, enode, st, {"result": result})
             self.check(st, c, "post", lab[7:] if lab.startswith("always:") else lab)
